@@ -1132,3 +1132,54 @@ proof fn thm_c01(u: Seq<(Seq<char>, J)>, s: Strat, p0: Seq<(Seq<char>, J)>, hk: 
     let m2 = m + ex; let s2 = masked(s, ex);
     thm_val(J::Obj(m2), s2, J::Obj(pl), ds, 0, dm, Set::<Dig>::empty());
 }
+
+// ---- from the presented strings to `genuine`: what the parser (C03.dmap) and the holder (C06: only held disclosures) establish ----
+// every disclosure the issuer created is well-formed: its digest is the digest of its own text, which decodes to an array
+spec fn all_wf(ds: DS) -> bool {
+    forall|i: int| 0 <= i < ds.len() ==> (#[trigger] ds[i]).hash@ == disc_digest(ds[i].raw_b64@) && disc_json(ds[i].raw_b64@) matches Some(J::Arr(_))
+}
+proof fn lemma_genuine_from_dmap(ps: Seq<Seq<char>>, ds: DS, dm: DM)
+    requires dmap_of(ps) == Some(dm), all_wf(ds),
+        forall|q: int| 0 <= q < ps.len() ==> exists|i: int| 0 <= i < ds.len() && #[trigger] ps[q] == (#[trigger] ds[i]).raw_b64@,
+    ensures genuine(dm, ds)
+    decreases ps.len()
+{
+    if ps.len() > 0 {
+        let p0 = ps.drop_last();
+        let m0 = dmap_of(p0)->Some_0;
+        assert forall|q: int| 0 <= q < p0.len() implies exists|i: int| 0 <= i < ds.len() && #[trigger] p0[q] == (#[trigger] ds[i]).raw_b64@ by {
+            let i = choose|i: int| 0 <= i < ds.len() && ps[q] == (#[trigger] ds[i]).raw_b64@;
+            assert(p0[q] == ds[i].raw_b64@);
+        }
+        lemma_genuine_from_dmap(p0, ds, m0);
+        let last = ps.last();
+        let i = choose|i: int| 0 <= i < ds.len() && ps[ps.len() - 1] == (#[trigger] ds[i]).raw_b64@;
+        assert(dm == m0.insert(disc_digest(last), disc_json(last)->Some_0));
+        assert forall|h: Dig| dm.contains_key(h) implies exists|k: int| 0 <= k < ds.len() && (#[trigger] ds[k]).hash@ == h && dm[h] == J::Arr(dj(ds[k])) by {
+            if h == disc_digest(last) {
+                assert(ds[i].hash@ == h && dm[h] == J::Arr(dj(ds[i])));
+            } else {
+                let k = choose|k: int| 0 <= k < ds.len() && (#[trigger] ds[k]).hash@ == h && m0[h] == J::Arr(dj(ds[k]));
+                assert(ds[k].hash@ == h && dm[h] == J::Arr(dj(ds[k])));
+            }
+        }
+    }
+}
+// C01, chained: the signed payload of an issuance (postcondition `payload_enc` of issue_sd_jwt), any list of presented strings
+// that are disclosures of that issuance (C06: the holder emits only disclosures it holds) whose digest map the verifier builds
+// (C03.dmap: `dmap_of`), fresh digests (A-FRESH) ==> the verifier's algorithm accepts and returns the selected view
+proof fn thm_c01_chain(u: Seq<(Seq<char>, J)>, s: Strat, p0: Seq<(Seq<char>, J)>, hk: Option<jsonwebtoken::jwk::Jwk>, ds: DS, ps: Seq<Seq<char>>, dm: DM)
+    requires wf_j(J::Obj(u)), !has_reserved(J::Obj(u)), !j_has(u, K_SD_ALG()),
+        hk is Some ==> !j_has(u, "cnf"@) && wf_j(jwk_to_j(hk->Some_0)) && !has_reserved(jwk_to_j(hk->Some_0)),
+        enc(J::Obj(without_root(u)), s, J::Obj(p0), ds, 0), hcount(J::Obj(without_root(u)), s) <= ds.len(), all_wf(ds),
+        /*A-FRESH*/ sep(J::Obj(without_root(u)), s, J::Obj(p0), ds, 0), distinct_hashes(ds), no_decoy_clash(ds),
+        /*C03.dmap*/ dmap_of(ps) == Some(dm),
+        /*C06: only held disclosures*/ forall|q: int| 0 <= q < ps.len() ==> exists|i: int| 0 <= i < ds.len() && #[trigger] ps[q] == (#[trigger] ds[i]).raw_b64@,
+    ensures ({
+        let m2 = without_root(u) + extras_of(u, hk); let s2 = masked(s, extras_of(u, hk)); let pl = asm(p0, only_root(u), hk);
+        u_val(J::Obj(pl), dm, Set::<Dig>::empty()) matches UR::Ok(v2, c) && v2 is Obj && is_view(v2, J::Obj(m2), s2, ds, 0, dm)
+            && u_top(pl, dm) == UR::Ok(J::Obj(j_remove_key(v2->Obj_0, K_SD_ALG())), c) })
+{
+    lemma_genuine_from_dmap(ps, ds, dm);
+    thm_c01(u, s, p0, hk, ds, dm);
+}
